@@ -16,7 +16,7 @@ from . import _script, _util as U
 PID = "C02"
 MOD = "bbverif.checks.c02"
 
-META = ["plain", "target", "target_opts", "type", "target_type_opts", "device", "blank_lines", "str_opts"]
+META = ["plain", "target", "target_opts", "type", "target_type_opts", "device", "blank_lines", "str_opts", "pos_and_kw_opts", "empty_and_list_opts"]
 STMTS = ["noargs1", "noargs2_sq", "noargs2_rb", "noargs2_bare", "pos_num", "pos_mixed", "kw_num", "kw_list", "kw_mixed",
          "pos_kw", "measure", "measure_kw", "var_int_mode", "var_float_arg", "var_expr", "var_str_bool", "array_arg",
          "array_idx", "loop_list", "loop_repeat", "loop_range", "trailing_comma", "expr_mode", "complex_arg", "empty_args", "str_like_literals", "number_spellings"]
@@ -56,6 +56,13 @@ def meta_lines(kind, lv):
         # strings whose content is spelled like another kind of literal stay strings
         L.append('target dev (label="True", tag="1.5", flag="False", n=%s)' % lv.int())
         L.append('type kind (mode="pi", names=["None", "2j", "False"])')
+    elif kind == "pos_and_kw_opts":
+        # positional entries in the option brackets are ignored (with a warning); the keyword options next to them are kept
+        L.append("target gaussian (%s, shots=%s, cutoff_dim=%s)" % (lv.int(), lv.int(), lv.int()))
+        L.append('type tdm ("x", %s, copies=%s)' % (lv.float(), lv.int()))
+    elif kind == "empty_and_list_opts":
+        L.append("target X8 ()")
+        L.append("type tdm (temporal_modes=%s, shifts=[%s], flags=[True, False])" % (lv.int(), lv.int()))
     elif kind == "blank_lines":
         L = ["", "name prog_blank", "", "version 1.0", "", "target foo", ""]
     return L
